@@ -245,9 +245,19 @@ def cli_runs(c, work, samples):
 
 def run(c):
     c.assumptions += ASSUME
-    tstats = schematr.write_if_changed()
-    c.coverage['schema_translation'] = {k: tstats[k] for k in ('files', 'definitions', 'store_entries', 'dangling_refs', 'changed')}
+    # the schema half of the model is regenerated from /repo; if the schema files can no longer be translated
+    # (a keyword, pattern or shape the interpreter does not model) the model is not compared with anything: the
+    # obligation is broken and only the implementation-side search runs
+    model_ok = True
+    try:
+        tstats = schematr.write_if_changed()
+        c.coverage['schema_translation'] = {k: tstats[k] for k in ('files', 'definitions', 'store_entries', 'dangling_refs', 'changed')}
+    except schematr.Untranslatable as ex:
+        model_ok = False
+        c.coverage['schema_translation'] = {'error': f'schema files of /repo cannot be translated: {ex}'}
     ob = c.proof_obligations()
+    if not model_ok:
+        ob = dict(ob, ok=False, failures=[c.coverage['schema_translation']['error']] + list(ob['failures']))
     thorough = c.tier == 'thorough'
     work = common.scratch()
     import json
@@ -298,7 +308,7 @@ def run(c):
             else:
                 lines.append({'op': 'load2', 'doc': r['tree'], 'dirs2': r['loaded'] + [pk2], 'dirs3': r['loaded'] + [pk3]})
             idx.append(i)
-    out = common.drv_run(lines)
+    out = common.drv_run(lines) if model_ok else []
     dis = []
     for i, line in zip(idx, out):
         r = results[i]
